@@ -49,6 +49,9 @@ CHECKS = {
  "C08": dict(engine="M", technique=M_TECH,
    text="One-step inductive checks by symbolic execution of the MIR (z3 decides every branch and property query) from arbitrary pre-states: (A) poll_accept_request_stream_internal with any sent GOAWAY id and up to 2 (quick) / 3 (thorough) arriving client-bidi ids per poll, in any order: handed to the application iff id < GOAWAY id, otherwise stop_sending+reset with H3_REQUEST_REJECTED; (B) first poll of ConnectionInner::shutdown: GOAWAY(id) written iff no id sent before or id smaller, state updated; (C) server shutdown(n) for every n and every last accepted id: announced id greater than every request already handed out and a client-bidi id; (D) client poll_close/process_goaway over every sequence of 2 / 3 GOAWAY ids: H3_ID_ERROR iff not a client-bidi id or larger than the previous one, otherwise recorded and closing set; check_peer_connection_closing refuses iff closing.",
    note="Lemmas taken from engine K (C16 harnesses): StreamId ordering is numeric, StreamId + n saturates keeping the kind, is_request is raw&3==0; From/Into between the u64 newtypes carry the value. Contracts: transport accept returns Pending / error / a client-bidi stream with arbitrary id; poll_requests_completion arbitrary; stream::write's future Pending / Ok / Err. The asynchronous continuation of shutdown after the first await and whole-history interleavings are not explored (each step is checked from an arbitrary state instead). Counterexamples are replayed natively (mock transport) before being reported.", ref="DESIGN.md §5 C08"),
+ "C04": dict(engine="M", technique=M_TECH,
+   text="Symbolic execution (z3) of one poll of ConnectionInner::poll_control (111 MIR blocks, with poll_grease_stream, InternalConnectionError::new/got_frame_error inlined) from an arbitrary pre-state (got_peer_settings, grease flag, grease step symbolic) over EVERY decoder outcome on the control stream (8 frame kinds, 6 decoder errors, end of stream, reset, unknown and transport errors, pending) and every behaviour of the endpoint's own grease stream (open / send / ready / finish: ok, pending, error): the error raised is exactly the code the property names (MISSING_SETTINGS, FRAME_UNEXPECTED, CLOSED_CRITICAL_STREAM, FRAME_ERROR, SETTINGS_ERROR, ID_ERROR), legal frames are returned, no path takes a frame and returns Pending, the first SETTINGS is applied; plus the role layers (server poll_next_control, client poll_close) over every frame kind poll_control returns.",
+   note="NOT covered: ConnectionInner::poll_accept_recv (duplicate control/encoder/decoder streams, unknown stream types, streams closed before their type) — its Vec/iterator/closure plumbing is outside the supported MIR subset for now — and AcceptRecvStream::poll_type. Unknown frame types never surface from the decoder (C02). Contracts: FrameStream::poll_next hands out one arbitrary event per call; transport open/write/finish return ready/pending/error arbitrarily; handle_connection_error is analysed under C05. Counterexamples are replayed natively before being reported.", ref="DESIGN.md §5 C04"),
  # --- more checks are appended above this line ---
 }
 
